@@ -44,9 +44,9 @@ class Cli:
             f.write(data)
         return path
 
-    def run(self, args, timeout=300):
+    def run(self, args, timeout=300, stdin=None):
         env = dict(os.environ, PYTHONPATH=O.SRC, PYTHONHASHSEED="0", PYTHONIOENCODING="utf-8")
-        p = subprocess.run([sys.executable, "-m", "tpmstream"] + args, capture_output=True, timeout=timeout, env=env, cwd=self.dir)
+        p = subprocess.run([sys.executable, "-m", "tpmstream"] + args, capture_output=True, timeout=timeout, env=env, cwd=self.dir, input=stdin)
         return p.returncode, p.stdout.decode("utf-8", "replace"), p.stderr.decode("utf-8", "replace")
 
 
@@ -104,25 +104,38 @@ def convert_case(ctx, L, cli, ex):
         content = carried if data.draw(st.booleans()) else data.draw(containers.pcapng_capture(msgs))[0]
     else:
         content = carried
-    args = ["convert", cli.file(content)]
+    # how the bytes reach the tool: one file, two files (the tool concatenates its inputs), or standard input ("-")
+    delivery = data.draw(st.sampled_from(["file", "file", "two-files", "stdin"]))
+    verb = data.draw(st.sampled_from(["convert", "convert", "co"]))
+    stdin = None
+    if delivery == "two-files" and len(content) >= 2:
+        cut = data.draw(st.integers(1, len(content) - 1))
+        args = [verb, cli.file(content[:cut]), cli.file(content[cut:])]
+    elif delivery == "stdin":
+        args = [verb, "-"]
+        stdin = content
+    else:
+        args = [verb, cli.file(content)]
+    n_files = len(args) - 1
     if fmt_in != "auto-default":
         args += ["--in", fmt_in]
     real_in = "auto" if fmt_in == "auto-default" else fmt_in
     if fmt_out != "pretty" or data.draw(st.booleans()):
         args += ["--out", fmt_out]
-    judge_convert(ctx, L, cli, args, real_in, fmt_out, "CommandResponseStream", content, None, malformed or fmt_in != "auto-default" or fmt_out != "pretty")
+    judge_convert(ctx, L, cli, args, real_in, fmt_out, "CommandResponseStream", content, None, malformed or fmt_in != "auto-default" or fmt_out != "pretty", n_files=n_files, stdin=stdin, delivery=delivery)
 
 
-def judge_convert(ctx, L, cli, args, fmt_in, fmt_out, tname, content, cc, nontrivial):
-    payload = {"args": args[:1] + ["<file>"] + args[2:], "file": content, "type": tname, "cc": cc, "in": fmt_in, "out": fmt_out}
+def judge_convert(ctx, L, cli, args, fmt_in, fmt_out, tname, content, cc, nontrivial, n_files=1, stdin=None, delivery="file"):
+    payload = {"args": args[:1] + ["<file>"] + args[1 + n_files :], "file": content, "type": tname, "cc": cc, "in": fmt_in, "out": fmt_out, "delivery": delivery}
+    ctx.count(f"delivery:{delivery}")
     kind, want = lib_convert(fmt_in, fmt_out, tname, content, cc)
-    ctx.case((tuple(args[2:]), content), nontrivial, sample={"args": payload["args"], "file_hex": content.hex()[:100], "library": kind})
+    ctx.case((tuple(payload["args"]), delivery, content), nontrivial, sample={"args": payload["args"], "delivery": delivery, "file_hex": content.hex()[:100], "library": kind})
     ctx.count(f"convert:in={fmt_in}:out={fmt_out}")
     if kind == "raises":
         ctx.count("convert:library-raises(skipped)")
         return True
-    code, out, err = cli.run(args)
-    what = f"`tpmstream {' '.join(payload['args'])}` on a file of {len(content)} bytes ({content.hex()[:160]})"
+    code, out, err = cli.run(args, stdin=stdin)
+    what = f"`tpmstream {' '.join(payload['args'])}` ({delivery}) on {len(content)} bytes ({content.hex()[:160]})"
     if code != 0:
         ctx.problem("C19:convert:exit", f"{what}: exit status {code}, stderr {err[-400:]!r}", payload)
         return False
@@ -344,7 +357,7 @@ def replay(ctx, payload):
 
             type_case(ctx, L, cli, _C)
             return
-        real = [args[0], cli.file(payload["file"])] + args[2:]
+        real = [args[0], cli.file(payload["file"])] + args[2:]  # replays deliver the bytes as one file
         if "type" in payload and "in" in payload:
             judge_convert(ctx, L, cli, real, payload["in"], payload["out"], payload["type"], payload["file"], payload.get("cc"), True)
     finally:
